@@ -19,6 +19,7 @@ at the top-level directory.
 #include <stdio.h>
 #include <math.h>
 #include "slu_mt_ddefs.h"
+#include "slu_mt_verif.h"
 
 #define SPLIT_TOP
 
@@ -353,6 +354,7 @@ int_t NewNsuper(const int_t pnum, pxgstrf_shared_t *pxgstrf_shared, int_t *data)
 #endif    
     {
       i = ++(*data);
+      SLU_VERIF_EV("NewNsuper", pnum, i);
     }
 #if ( MACH==SUN )
     mutex_unlock(lock);
